@@ -42,6 +42,12 @@ func ulPlain(kind string, l int, seed uint64) []byte {
 		return nasTestpacket.GetUlNasTransport_PduSessionReleaseRequest(uint8(1 + r.Intn(15)))
 	case "svc":
 		return nasTestpacket.GetServiceRequest(nasMessage.ServiceTypeData)
+	case "ulnas-rt": // UL NAS TRANSPORT ending in the request type IE (no S-NSSAI, no DNN): hand-built, TS 24.501 8.2.10
+		psi := byte(1 + r.Intn(15))
+		return []byte{0x7e, 0x00, 0x67, 0x01, 0x00, 0x04, 0x2e, psi, byte(1 + r.Intn(200)), 0xd1, 0x12, psi, 0x80 | byte(1+r.Intn(4))}
+	case "ulnas-min": // UL NAS TRANSPORT with the PDU session id only
+		psi := byte(1 + r.Intn(15))
+		return []byte{0x7e, 0x00, 0x67, 0x01, 0x00, 0x04, 0x2e, psi, byte(1 + r.Intn(200)), 0xd4, 0x12, psi}
 	case "gsm-est": // bare 5GSM messages (EPD 0x2e): the statement ranges over plain 5GMM and 5GSM messages
 		return nasTestpacket.GetPduSessionEstablishmentRequest(uint8(1 + r.Intn(15)))
 	case "gsm-rel":
@@ -172,6 +178,11 @@ func runULHistory(hi int, h hmap) {
 		if err != nil {
 			fail("ul.pool", "the library cannot re-encode its own message: %v", err)
 			continue
+		}
+		// the receiver must recover the message that was SUBMITTED: the pool only holds messages whose
+		// canonical encoding is the submitted octets, so the codec's view of them must be those octets
+		if !bytes.Equal(want, plain) {
+			fail("ul.submitted-altered", "the submitted %s message %x is seen by the protection layer as %x: what the receiver recovers is not what was submitted", str(msg, "kind"), plain, want)
 		}
 		sht := uint8(num(op, "sht", 2))
 		switch str(op, "op") {
